@@ -40,14 +40,17 @@ fn scenarios(thorough: bool) -> Vec<(Scenario, Vec<i32>)> {
         for (shape, msgs, ids) in shapes {
             // once with the server already initialised, once with the initialisation window still
             // open (the real loop queues requests and handles cancels/responses immediately)
-            for init_window in [false, true] {
+            // … and, with the server initialised, once more with the last message arriving late (its arrival is
+            // a scheduler event: a cancel that lands while the handler is running, waiting or answering)
+            for (init_window, late) in [(false, false), (true, false), (false, true)] {
                 if init_window && k > 1 {
                     continue;
                 }
-                let mut s = Scenario::new(&format!("{}:{shape}{}", KINDS[k], if init_window { ":during-init" } else { "" }));
+                let mut s = Scenario::new(&format!("{}:{shape}{}{}", KINDS[k], if init_window { ":during-init" } else { "" }, if late { ":last-arrives-late" } else { "" }));
                 s.disk = vec![("a.lua".into(), DOC.into()), ("b.lua".into(), "local b = 1\n".into())];
                 s.pull_diagnostics = true;
                 s.init_as_event = init_window;
+                s.late_messages = late as usize;
                 s.messages.push(world::did_open("a.lua", DOC));
                 s.messages.extend(msgs.clone());
                 out.push((s, ids.clone()));
@@ -117,7 +120,7 @@ pub fn run(args: &Args) -> ! {
         tot.add(&st);
     }
     rep.rule = format!(
-        "{} scenarios = request kinds {:?} × cancellation shapes (cancel same id after/before the request, cancel another id, two requests cancel first, double cancel, cancel then probe) behind one didOpen, fed to the real server loop; every schedule with ≤{bound} preemptions modulo happens-before state matching; oracle at quiescence: each request id has exactly one Response carrying result xor error. non-trivial = more than one decision",
+        "{} scenarios = request kinds {:?} × cancellation shapes (cancel same id after/before the request, cancel another id, two requests cancel first, double cancel, cancel then probe) behind one didOpen, fed to the real server loop (server initialised / initialisation window open / last message arriving late as a scheduler event); every schedule with ≤{bound} preemptions modulo happens-before state matching; oracle at quiescence: each request id has exactly one Response carrying result xor error. non-trivial = more than one decision",
         scns.len(),
         &KINDS[..if thorough { 5 } else { 4 }]
     );
